@@ -903,6 +903,7 @@ impl DhtHandler {
         ensures final(self).hinv(), // @C18.single_refresh_chain
             only_requests_and_yields(old(tr).ev, final(tr).ev), // @C05.timeouts_send_only_queries
             !(token is TableRefresh) ==> no_new_refresh(old(self).timer, final(self).timer), // @C18.only_a_refresh_timeout_starts_a_round
+            token is TableRefresh ==> final(self).one_refresh_pending(), // @C11.every_refresh_timeout_runs_a_round_and_schedules_the_next
     {
         match token {
             ScheduledTaskCheck::TableRefresh => {
